@@ -60,12 +60,38 @@ func (c *Ctx) ruleDeclaredNameRequired(rule string) {
 			}
 			return true
 		})
+		// a name read through a helper that refuses the empty parameter: `name, je := required(d, "Name")`
+		errOf := map[types.Object]types.Object{}
+		ast.Inspect(f.Decl.Body, func(nd ast.Node) bool {
+			as, ok := nd.(*ast.AssignStmt)
+			if !ok || len(as.Lhs) != 2 || len(as.Rhs) != 1 {
+				return true
+			}
+			id, ok := as.Lhs[0].(*ast.Ident)
+			if !ok {
+				return true
+			}
+			obj := pk.TypesInfo.ObjectOf(id)
+			if obj == nil {
+				return true
+			}
+			if e, call, kp := c.requiredBy(f, obj); e != nil && kp >= 0 && kp < len(call.Args) {
+				if k, isK := constString(pk, call.Args[kp]); isK {
+					nameLocals[obj] = k
+					errOf[obj] = e
+				}
+			}
+			return true
+		})
 		if len(nameLocals) == 0 {
 			continue
 		}
 		fc := c.cfgOf(f)
 		nonEmptyAt := func(obj types.Object, at ast.Node) bool {
 			return fc.establishedAt(at, func(cond ast.Expr, trueEdge bool) bool {
+				if successEdge(pk, cond, trueEdge, errOf[obj]) {
+					return true
+				}
 				be, ok := ast.Unparen(cond).(*ast.BinaryExpr)
 				if !ok {
 					return false
